@@ -161,28 +161,46 @@ fn nopanic_dkg_round2_secret_package() {
 }
 
 // BTreeMap-carrying types: the map keys come from the input, i.e. they are SYMBOLIC — the case the design
-// (§2.5) rules out for Kani beyond toy sizes.  The map length byte is therefore restricted to <= 1 entry
-// (with one entry no key comparison ever happens); everything else is symbolic.
-// @harness name=nopanic_public_key_package_le1 props=C14 kind=bounded bound="N = 10, map length byte <= 1 (valid encodings with 1 entry: 9..12 bytes)" tier=thorough backs="no panic in PublicKeyPackage::deserialize on arbitrary bytes with at most one map entry" expect=pass
+// (§2.5) rules out for Kani beyond toy sizes.  With a symbolic map-length byte these harnesses did not finish
+// in 25 min even for <= 1 entry; the element COUNT is therefore concrete (0 or 1: with one entry no key
+// comparison ever happens), every other byte and the total length are symbolic.  unwind 5 + stubbed short_id
+// as in codec.rs; SigningPackage additionally bounds the message-length byte (< 4).
+// @harness name=nopanic_public_key_package_n1 props=C14 kind=bounded bound="N = 12, map length byte == 1 (valid encodings: 9..12 bytes); all other bytes, all lengths <= 12" tier=thorough backs="no panic in PublicKeyPackage::deserialize (custom visitor) on arbitrary bytes with exactly one announced map entry" expect=pass
 #[kani::proof]
-#[kani::unwind(12)]
-fn nopanic_public_key_package_le1() {
-    let buf: [u8; 10] = kani::any();
-    kani::assume(buf[5] <= 1);
+#[kani::unwind(5)]
+#[kani::stub(frost_core::serialization::short_id, stub_short_id)]
+fn nopanic_public_key_package_n1() {
+    let mut buf: [u8; 12] = kani::any();
+    buf[5] = 1;
+    let len: usize = kani::any();
+    kani::assume(len <= 12);
+    let r = PublicKeyPackage::<Toy251>::deserialize(&buf[..len]);
+    core::mem::forget(r);
+}
+
+// @harness name=nopanic_public_key_package_n0 props=C14 kind=bounded bound="N = 10, map length byte == 0 (valid encodings: 7..10 bytes)" tier=thorough backs="no panic in PublicKeyPackage::deserialize on arbitrary bytes announcing an empty map" expect=pass
+#[kani::proof]
+#[kani::unwind(5)]
+#[kani::stub(frost_core::serialization::short_id, stub_short_id)]
+fn nopanic_public_key_package_n0() {
+    let mut buf: [u8; 10] = kani::any();
+    buf[5] = 0;
     let len: usize = kani::any();
     kani::assume(len <= 10);
     let r = PublicKeyPackage::<Toy251>::deserialize(&buf[..len]);
     core::mem::forget(r);
 }
 
-// @harness name=nopanic_signing_package_le1 props=C14 kind=bounded bound="N = 16, map length byte <= 1 (a valid encoding with 1 entry and a 1-byte message has 16 bytes)" tier=thorough backs="no panic in SigningPackage::deserialize on arbitrary bytes with at most one map entry" expect=pass
+// @harness name=nopanic_signing_package_n1 props=C14 kind=bounded bound="N = 17, map length byte == 1, message-length byte < 4 (a valid encoding with a 1-byte message has 16 bytes)" tier=thorough backs="no panic in SigningPackage::deserialize on arbitrary bytes with exactly one announced map entry" expect=pass
 #[kani::proof]
-#[kani::unwind(18)]
-fn nopanic_signing_package_le1() {
-    let buf: [u8; 16] = kani::any();
-    kani::assume(buf[5] <= 1);
+#[kani::unwind(5)]
+#[kani::stub(frost_core::serialization::short_id, stub_short_id)]
+fn nopanic_signing_package_n1() {
+    let mut buf: [u8; 17] = kani::any();
+    buf[5] = 1;
+    kani::assume(buf[14] < 4);
     let len: usize = kani::any();
-    kani::assume(len <= 16);
+    kani::assume(len <= 17);
     let r = SigningPackage::<Toy251>::deserialize(&buf[..len]);
     core::mem::forget(r);
 }
